@@ -1,6 +1,7 @@
 From Coq Require Import ExtrOcamlBasic NArith List.
-From LLRP Require Import Driver.Supervisor.
+From LLRP Require Import Driver.Supervisor Driver.Registry.
 Extraction Language OCaml.
 Extraction "model.ml" init step run log dial_enabled quiescent poisoned handshake_ok
   connected stopped isUp lcl cur_addr max_conn_attempts max_send_attempts try_send
-  last_report reports fails_since_hs alternates dials.
+  last_report reports fails_since_hs alternates dials
+  rinit rstep rrun managed supervisors flags_found flags_repaired next.
